@@ -754,9 +754,10 @@ impl Model {
                 }
             }
             // a don't-care an earlier sequence of this stream left open (where the cursor is after
-            // DECRC in the pending-wrap column / after `CSI r`, which tab stops a width change leaves)
+            // DECRC in the pending-wrap column / after `CSI r`, which tab stops a width change leaves;
+            // not D13, the DECTCEM bit after DECRC, which no later sequence reads)
             // decides what everything after it does: nothing later in the stream is compared
-            if i > 0 && !self.dc.all && (self.dc.cursor_x_alt.is_some() || self.dc.cursor_home_alt || self.dc.cursor_pos || self.dc.tabstops || self.dc.dectcem_alt.is_some()) {
+            if i > 0 && !self.dc.all && (self.dc.cursor_x_alt.is_some() || self.dc.cursor_home_alt || self.dc.cursor_pos || self.dc.tabstops) {
                 self.dc.mark_all("a don't-care left open by an earlier sequence of the same stream");
             }
             self.d6_narrow = i + 1 == ev.len();
